@@ -309,8 +309,11 @@ Obeyed(s, r, c, reach) ==
   IF c.what = "setting" THEN Close(N(r.setting[c.link]), N(c.val), Sci(1, -9), TolF)
   ELSE IF c.val = 0 THEN r.status[c.link] = Closed
   ELSE r.status[c.link] # Closed \/ HeldClosed(s, r, l, reach)
-Conflicts(c, d) == d.link = c.link /\ d.what = c.what /\ d.prio >= c.prio
-                   /\ (IF c.what = "setting" THEN ~Eq(N(d.val), N(c.val)) ELSE d.val # c.val)
+\* d contradicts c: same target attribute with another value, or - on a valve - a setting control (which makes the valve
+\* Active) against a status control that closes it; only a control of equal or higher priority may win
+Conflicts(c, d) == /\ d.link = c.link /\ d.prio >= c.prio
+                   /\ \/ (d.what = c.what /\ (IF c.what = "setting" THEN ~Eq(N(d.val), N(c.val)) ELSE d.val # c.val))
+                      \/ (c.what = "status" /\ c.val = 0 /\ d.what = "setting")
 CtlConsistent(s, r, reach) ==        \* set of indices of violated controls
   {i \in DOMAIN s.cctl :
      LET c == s.cctl[i] IN
